@@ -2311,7 +2311,7 @@ def run(tier, seed, replay=None):
                            per_round=10 if quick else None)
         lap("scalar_born")
         n_ms = mixed_scalar_stream(rep, drv, random.Random(rng.getrandbits(64)), n_mixed_rounds, budget,
-                                   per_combo=1 if quick else 2, quick=quick)
+                                   per_combo=1, quick=quick)
         rep.extra["mixed_scalar_cases"] = n_ms
         lap("mixed_scalars")
         cqexpr_stream(rep, drv, random.Random(rng.getrandbits(64)), n_expr)
